@@ -157,6 +157,10 @@ type c21World struct {
 	excludedStale   bool
 	excludedShrink  bool
 	splitPublish    bool // broker operations ran between the operator's read and its write
+	nestedOp        func() error // another broker's operation to run inside the next admin operation
+	nestedAt        int
+	nestedErr       error
+	nestedRan       bool
 	refreshAt       int  // next admin operation: a refresh of the same broker is issued at its k-th context check
 	refreshDuring   bool
 	refreshInside   bool
@@ -336,6 +340,21 @@ func (w *c21World) opCtx(b int) (ctx context.Context, join func()) {
 	base, cancel := context.WithTimeout(context.Background(), 30*time.Second)
 	at := w.refreshAt
 	w.refreshAt = 0
+	if nested := w.nestedOp; nested != nil && w.nestedAt > 0 {
+		// another broker's admin operation is carried out completely while this one is between
+		// two of its steps (at its k-th context check) - two brokers racing
+		w.nestedOp = nil
+		k := w.nestedAt
+		w.nestedAt = 0
+		h := &c21HookCtx{Context: base, at: k}
+		h.fire = func() {
+			w.trace = append(w.trace, fmt.Sprintf("[while b%d's operation is at its context check %d:", b, k))
+			w.nestedErr = nested()
+			w.trace = append(w.trace, "]")
+			w.nestedRan = true
+		}
+		return h, cancel
+	}
 	if at == 0 {
 		return base, cancel
 	}
@@ -550,11 +569,23 @@ func TestVF_C21_Histories(t *testing.T) {
 		fail("", err)
 		defer w.close()
 		nops := rapid.IntRange(3, 12).Draw(rt, "nops")
+		inNested := false
 		var doOp func(op string)
 		doOp = func(op string) {
 			b := rapid.IntRange(0, nb-1).Draw(rt, "broker")
 			if (op == "create" || op == "grow" || op == "delete") && rapid.IntRange(0, 3).Draw(rt, "refreshDuring") == 0 {
 				w.refreshAt = rapid.IntRange(1, 8).Draw(rt, "refreshAtCheck")
+			} else if (op == "create" || op == "grow") && nb > 1 && w.nestedOp == nil && !inNested && rapid.IntRange(0, 3).Draw(rt, "raceOther") == 0 {
+				// two brokers race: another broker creates a topic while this operation is under way
+				ob := (b + 1 + rapid.IntRange(0, nb-2).Draw(rt, "otherBroker")) % nb
+				oname := rapid.SampledFrom(names).Draw(rt, "otherName")
+				on := rapid.IntRange(1, 4).Draw(rt, "otherPartitions")
+				w.nestedAt = rapid.IntRange(1, 6).Draw(rt, "raceAtCheck")
+				w.nestedOp = func() error {
+					inNested = true
+					defer func() { inNested = false }()
+					return w.create(ob, oname, on, knownStale)
+				}
 			}
 			switch op {
 			case "create":
@@ -616,6 +647,10 @@ func TestVF_C21_Histories(t *testing.T) {
 				fail("", w.publish(replicas, crs, knownShrink, between))
 				st.Class("op-publish")
 			}
+			if e := w.nestedErr; e != nil {
+				w.nestedErr = nil
+				fail("", e)
+			}
 		}
 		for i := 0; i < nops; i++ {
 			doOp(rapid.SampledFrom([]string{"create", "create", "create", "grow", "grow", "grow", "delete", "refresh", "refresh", "refresh", "publish", "publish"}).Draw(rt, "op"))
@@ -648,6 +683,10 @@ func TestVF_C21_Histories(t *testing.T) {
 		}
 		if w.refreshDuring {
 			st.Class("refresh-of-the-same-broker-issued-during-an-admin-operation")
+			nt = true
+		}
+		if w.nestedRan {
+			st.Class("another-brokers-create-carried-out-inside-an-admin-operation")
 			nt = true
 		}
 		if w.refreshInside {
